@@ -590,3 +590,43 @@ mod tests {
         }
     }
 }
+
+#[cfg(feature = "verif")]
+impl ResourcePool {
+    /// Plain-data projection of the free state of the pool (verification hook).
+    pub(crate) fn verif_dump(&self) -> serde_json::Value {
+        use serde_json::json;
+        let frac = |m: &Map<ResourceIndex, ResourceFractions>, g: usize| -> Vec<serde_json::Value> {
+            let mut v: Vec<_> = m
+                .iter()
+                .map(|(i, f)| json!({"i": i.as_num(), "g": g, "f": f}))
+                .collect();
+            v.sort_by_key(|x| x["i"].as_u64());
+            v
+        };
+        let sorted = |v: &Vec<ResourceIndex>| -> Vec<u32> {
+            let mut v: Vec<u32> = v.iter().map(|i| i.as_num()).collect();
+            v.sort_unstable();
+            v
+        };
+        let amount = |a: ResourceAmount| -> u64 {
+            let (u, f) = a.split();
+            u as u64 * 10_000 + f as u64
+        };
+        match self {
+            ResourcePool::Empty => json!({"kind": "empty", "full": 0, "free": [], "frac": [], "sum_free": 0}),
+            ResourcePool::Indices(p) => json!({"kind": "indices", "full": amount(p.full_size),
+                "free": [sorted(&p.indices)], "frac": frac(&p.fractions, 0), "sum_free": 0}),
+            ResourcePool::Groups(p) => {
+                let mut fr = Vec::new();
+                for (g, m) in p.fractions.iter().enumerate() {
+                    fr.extend(frac(m, g));
+                }
+                json!({"kind": "groups", "full": amount(p.full_size),
+                       "free": p.indices.iter().map(sorted).collect::<Vec<_>>(), "frac": fr, "sum_free": 0})
+            }
+            ResourcePool::Sum(p) => json!({"kind": "sum", "full": amount(p.full_size), "free": [], "frac": [],
+                                           "sum_free": amount(p.free)}),
+        }
+    }
+}
